@@ -26,7 +26,7 @@ static std::string text_of(C const& c) { std::ostringstream o; c.serialize(o); r
 
 // ---- integrands -------------------------------------------------------------------------------------
 
-static int g_kind = 5;        // 0 identically zero, 1 constant, 2 +-1 alternating, 3 NaN everywhere, 4 NaN sometimes, 5 linear
+static int g_kind = 5;        // 0 identically zero, 1 constant, 2 +-1 alternating, 3 NaN everywhere, 4 NaN sometimes, 5 linear, 6 narrow support
 static sz g_counter = 0;
 
 // values depend on the point only, so that serial and MPI runs integrate the same function
@@ -42,6 +42,7 @@ static T value_of(T x)
     case 2: return (cell % 2) ? T(-1) : T(1);
     case 3: return std::numeric_limits<T>::quiet_NaN();
     case 4: return (cell % 3 == 1) ? std::numeric_limits<T>::quiet_NaN() : T(0.5) + x;
+    case 6: return (cell % 8 == 3) ? T(1) + x : T();      // one cell in eight: some iterations have no hit at all
     default: return T(0.25) + x;
     }
 }
@@ -216,7 +217,7 @@ static void part_b(report& r)
     std::string const tn = vf::type_name<T>();
     std::vector<sz> const calls = {4, 6, 5, 8, 7};
     hep::callback_mode const modes[] = {hep::callback_mode::silent, hep::callback_mode::silent_and_write_chkpt, hep::callback_mode::verbose, hep::callback_mode::verbose_and_write_chkpt};
-    for (int kind = 0; kind != 6; ++kind)
+    for (int kind = 0; kind != 7; ++kind)
     {
         // reference results: iterations do not depend on the callback
         g_kind = kind; g_counter = 0;
@@ -224,6 +225,7 @@ static void part_b(report& r)
         vf::script_engine::salt() = 1201;
         auto const all = R::run(calls, R::fresh(), vf::never_stop());
         if (all.results().size() != calls.size()) { r.violate("never-stopping-callback-stopped", tn, tn + " kind " + std::to_string(kind)); continue; }
+        for (auto const& res : all.results()) if (res.non_zero_calls() == 0) r.count("reference_iterations_without_any_hit");
         // targets: fixed ones plus the relative errors actually reached (and values just around them)
         std::vector<T> targets = {T(0), T(1e-3L), T(0.05L), T(0.3L), T(1)};
         for (sz k = 1; k <= calls.size(); ++k)
